@@ -1,11 +1,36 @@
 """C03 — Minecraft status replies decode exactly; auto-detect order holds."""
-from props import decode_generic
+import vlib
+from props import decode_generic, netprops
+from props.families import mcauto
 
 LEVEL = "proof"
-RULE = decode_generic.rule_text("C03")
-ASSUMPTIONS = ["external crates are parameters of the model"]
-TRUSTED = ["hand-written Lean models, checked against the code on every run", "SPEC encoders written from the protocol documentation / reference implementation (node-gamedig)"]
+RULE = decode_generic.rule_text("C03") + (" auto-detect order: for SPEC-generated worlds over all 32 subsets of variants spoken, the "
+        "transports of the sockets the implementation opened, in order, must be the prefix of [tcp, udp, tcp, tcp, tcp] up to the "
+        "first variant spoken (OPENED tag).")
+ASSUMPTIONS = ["external crates are parameters of the model (serde_json: mirrored in the driver by GdVerif/Run/McJson.lean and compared on every case)"]
+TRUSTED = ["hand-written Lean models, checked against the code on every run",
+           "SPEC encoders written from the protocol documentation (wiki.vg Server List Ping, RakNet unconnected pong)"]
 
 
 def run(rep, tier, seed, replay=None):
     decode_generic.run("C03", rep, tier, seed, replay)
+    if replay is not None:
+        return
+    # connection order of the auto-detecting query, all 32 subsets x 3 retry settings per 96 consecutive cases
+    valids = [v for v in netprops.valid_cases("mcauto", seed + 3, 192 if tier == "quick" else 3840) if not v.notwf]
+    by_id = {v.id: v for v in valids}
+
+    def oracle(case, impl, model, panic):
+        out = netprops.crash_oracle(case, impl, model, panic)
+        v = by_id.get(case.split(" ", 1)[0])
+        if v is None or out:
+            return out
+        got, want = mcauto.opened_of(impl), v.tags.get("OPENED", "")
+        rep.count("opened:" + got)
+        if got != want:
+            out.append(("auto-order", f"sockets opened {got}, expected {want}"))
+        if vlib.result_of(impl) != v.want:
+            out.append(("decode-mismatch:mcauto", f"want {v.want[:300]} got {vlib.result_of(impl)[:300]}"))
+        return out
+
+    vlib.correspond(rep, [v.line for v in valids], oracle=oracle, trivial=lambda c, i: False, tag="c03o")
